@@ -995,6 +995,11 @@ def explain_trials(p, blk, dT, T):
                 "rounded" % (kind, T, sus, blk.min_trials, dT, "/".join(early)))
     import causes
     cause = "crossed-derived-reads-derived" if causes.crossed_derived_reads_derived(p) and T > dT else None
+    if cause is None and causes.alignment_preamble(p):
+        # POST_PREAMBLE: the code delays every crossing by the start of an UNCROSSED complex factor
+        # (_alignment_preamble), the documentation only by the crossings' own preambles
+        # (root cause of the open findings of C17 / C05 / C24 / C26)
+        cause = "alignment-preamble"
     if cause:
         # a crossed within-trial derived factor that reads another derived factor: combinations that are
         # impossible only through the chain are not recognised (root cause of open findings of C02/C08/C09),
